@@ -416,11 +416,13 @@ def check_operators(chk, thorough, known_ids, nodes):
     model = [mt[c.expr] for c in cases]
 
     def predicted_unstable(k):
-        return any(mt[e] is not None and mt[e][0] != mt[e][1] for e in effs[k])
-    # trees the model predicts to be rewritten differently run alone (they are few)
+        # also: the model's grammar rejects the source (`a + -b`): the reader probably does too
+        return (S.tokens_of(members[k][1].expr) is not None and mt[members[k][1].expr] is None) or \
+            any(mt[e] is not None and mt[e][0] != mt[e][1] for e in effs[k])
+    # trees the model predicts to be rewritten differently / to be rejected run alone (they are few)
     risky = [m for k, m in enumerate(members) if predicted_unstable(k)]
     calm = [m for k, m in enumerate(members) if not predicted_unstable(k)]
-    dist["predicted_unstable_by_model"] = len(risky)
+    dist["run_alone_predicted_unstable_or_rejected"] = len(risky)
     iso = Isolator(op_make, nodes, limit=10 ** 6 if SIGN_FINDING in known_ids else 12)
     for lo in range(0, len(calm), 40):
         iso.run(calm[lo:lo + 40])
